@@ -291,6 +291,12 @@ def differs(pid, impl, model):
     return impl != model
 
 
+def _internal_only(impl, model):
+    fi, fm = _fields(impl), _fields(model)
+    keys = set(fi) | set(fm)
+    return all(fi.get(k) == fm.get(k) for k in keys if k not in ("W", "C"))
+
+
 def compare(pid, stage, ops, impl, model):
     """returns (disagreements, number of session divergences owned by other properties)"""
     out, other = [], 0
@@ -314,10 +320,16 @@ def compare(pid, stage, ops, impl, model):
         if a == b or diverged:
             continue
         if sessioned:
-            diverged = True
             if differs(pid, a, b):
+                diverged = True
                 out.append({"op": o, "impl": a, "model": b, "session_op": True, "session": cur_session, "stage": stage["name"]})
+            elif _internal_only(a, b):
+                # only the internal tables differ so far (the wd table / the cookie ring: C12's and C11's
+                # business); nothing a caller can see has diverged, so keep reading this session for
+                # the first caller-visible divergence and attribute that one
+                other += 1
             else:
+                diverged = True
                 other += 1
         else:
             out.append({"op": o, "impl": a, "model": b})
